@@ -1,3 +1,6 @@
--- This module serves as the root of the `Blf` library.
--- Import modules here that should be built as part of the library.
-import Blf.Basic
+import Blf.Bytes
+import Blf.Codec.Lang
+import Blf.Codec.Items
+import Blf.Codec.Canon
+import Blf.Codec.Linear
+import Blf.Codec.Regular
